@@ -86,3 +86,48 @@ func Harness_C06_DeliveryStep() {
 		verifAssert("an unauthorised delivery is rejected", err != nil)
 	}
 }
+
+// C06 with re-entry: hook payloads are signed transactions routed through the normal message router, so the hook
+// of deposit N may itself carry a deposit finalization (an executor racing through the hook). Whatever that inner
+// message names, the sequences processed in this step are exactly next, next+1, ... (each once), and the counter
+// equals one plus the number processed.
+func Harness_C06_ReentrantHook() {
+	paramsBounds()
+	verifConfig("len:BridgeExecutors", 1)
+	verifConfig("hook.clean", 1) // bound: the hook transaction decodes, passes the ante chain and carries exactly the inner deposit
+	verifConfig("hookmsgs", 1)
+	k, ms, ctx := setup()
+	req := symFinalizeDeposit()
+	inner := &types.MsgFinalizeTokenDeposit{
+		Sender: verifSymStr("inner.sender"), From: verifSymStr("inner.from"), To: verifSymStr("inner.to"),
+		Amount:   sdk.Coin{Denom: verifSymStr("inner.denom"), Amount: verifSymInt("inner.amount")},
+		Sequence: verifSymU64("inner.sequence"), Height: verifSymU64("inner.height"), BaseDenom: verifSymStr("inner.baseDenom"),
+	}
+	verifOnRoute(inner, routed(func(c sdk.Context) error { _, err := ms.FinalizeTokenDeposit(c, inner); return err }))
+	next := k.nextL1(ctx)
+	verifAssume(next < 1<<62 && k.nextL2(ctx) < 1<<62)
+	verifAssume(req.Sequence == next && k.isExecutor(ctx, req.Sender))
+	// bound: both messages are well-formed deposits of positive amounts to valid recipients (C07 covers the rest)
+	verifAssume(req.Validate(k.authKeeper.AddressCodec()) == nil && inner.Validate(k.authKeeper.AddressCodec()) == nil)
+	_, toOK := k.addr(req.To)
+	_, itoOK := k.addr(inner.To)
+	verifAssume(toOK && itoOK && req.Amount.Amount.IsPositive() && inner.Amount.Amount.IsPositive())
+	nEv := len(eventsOf(ctx, types.EventTypeFinalizeTokenDeposit))
+	sup0 := k.sup(ctx, req.Amount.Denom)
+	err, pan := runMsg(ctx, func(c sdk.Context) error { _, e := ms.FinalizeTokenDeposit(c, req); return e })
+	if !ok(err, pan) {
+		return
+	}
+	verifReach("outer processed")
+	// the outer message is the deposit `next`; the counter tells how many deposits were processed in this step:
+	// a second one can only be the inner message and must then be the deposit next+1 (never `next` again)
+	next1 := k.nextL1(ctx)
+	verifAssert("one or two deposits are processed", next1 == next+1 || next1 == next+2)
+	if next1 == next+2 {
+		verifReach("inner processed too")
+		verifAssert("no L1 sequence is processed twice", inner.Sequence != req.Sequence)
+		verifAssert("the processed sequences are exactly the next two", inner.Sequence == next+1)
+	}
+	_ = nEv
+	_ = sup0
+}
